@@ -19,6 +19,7 @@ CONSTANTS D,          \* dimension
           LimPairs,   \* set of raw limit pairs <<lo, hi>>, lo <= 0 <= hi, incl. degenerate and narrow ones
           LMax,       \* bound on |lo|, |hi|
           Eps,        \* widening threshold in units (even)
+          QR,         \* contains()/pdf() are queried at all lattice points within QR of the centre
           UseInverse  \* BOOLEAN
 
 VARIABLES box, built, last, q
@@ -28,8 +29,10 @@ None == <<>>                      \* no point yet (points are sequences of lengt
 NoRec == [tag |-> "none"]         \* no record yet
 Rotations == SignedPerms(D)
 RawLimits == [1..D -> LimPairs]
-Reach == CMax + LMax + Eps \div 2 + 1                  \* world window that covers every box, plus a margin
+Reach == CMax + LMax + Eps \div 2 + 2                  \* world window that covers every box, plus a margin
 Window == [1..D -> -Reach..Reach]
+\* query points: the surroundings of the box (QR > LMax + Eps/2 reaches beyond the farthest possible face)
+Near(c) == {[k \in 1..D |-> c[k] + d[k]] : d \in [1..D -> -QR..QR]}
 
 Init == /\ box \in [R : Rotations, c : Centres, lim : RawLimits]
         /\ built = NoRec /\ last = None /\ q = NoRec
@@ -47,7 +50,6 @@ Construct == /\ built = NoRec
              /\ UNCHANGED <<box, last, q>>
 
 Sample(u) == /\ built # NoRec /\ last = None /\ q = NoRec
-             /\ u \in BodyLattice(built.lim)
              /\ last' = Forward(box.R, box.c, u)
              /\ UNCHANGED <<box, built, q>>
 
@@ -56,7 +58,11 @@ Query(x) == /\ built # NoRec /\ last = None /\ q = NoRec
                      pdf |-> Pdf(built.rinv, box.c, built.lim, x)]
             /\ UNCHANGED <<box, built, last>>
 
-Next == Construct \/ (\E u \in [1..D -> -(LMax + Eps)..(LMax + Eps)] : Sample(u)) \/ (\E x \in Window : Query(x))
+\* (the guard is hoisted out of the quantifiers so that TLC does not enumerate them in leaf states)
+Fresh == built # NoRec /\ last = None /\ q = NoRec
+Next == \/ Construct
+        \/ (Fresh /\ \E u \in BodyLattice(built.lim) : Sample(u))
+        \/ (Fresh /\ \E x \in Near(box.c) : Query(x))
 Spec == Init /\ [][Next]_vars
 
 \* ---- theorems --------------------------------------------------------------------
